@@ -75,9 +75,10 @@ func c17StepMode(c *c17StepCase) string {
 	switch {
 	case c.Step == 0:
 		return "raw"
-	case c17InstantFuncs[c.Func] || c.Func == "":
+	case (c17InstantFuncs[c.Func] || c.Func == "") && c.Range == 0 && 300000%c.Step == 0:
+		// an instant selector and a step that divides the engine's lookback delta: every evaluation time is a bucket end
 		return "bucket"
-	case c17RangeFuncs[c.Func] && c.Step > c.Range:
+	case c17RangeFuncs[c.Func] && c.Range > 0 && c.Step > c.Range:
 		return "rangefilter"
 	}
 	return "raw"
@@ -169,17 +170,19 @@ func c17StepWantOpt(c *c17StepCase, s c17E2ESeries, firstExcl bool) []model.Samp
 			res = append(res, model.Sample{TimestampMs: x[0], Value: float64(x[1])})
 		}
 	case "bucket":
-		// bucket k = (Start + (k−1)·Step, Start + k·Step], its last sample, re-timed to the bucket end
+		// bucket k = (Start + (k−1)·Step, Start + k·Step]: its last sample, with its own time
+		last := int64(0)
 		for _, x := range sm {
 			if x[0] < c.Start || x[0] > c.End {
 				continue
 			}
 			be := (x[0]-c.Start+c.Step-1)/c.Step*c.Step + c.Start
-			if n := len(res); n > 0 && res[n-1].TimestampMs == be {
-				res[n-1].Value = float64(x[1])
+			if n := len(res); n > 0 && last == be {
+				res[n-1] = model.Sample{TimestampMs: x[0], Value: float64(x[1])}
 			} else {
-				res = append(res, model.Sample{TimestampMs: be, Value: float64(x[1])})
+				res = append(res, model.Sample{TimestampMs: x[0], Value: float64(x[1])})
 			}
+			last = be
 		}
 	case "downsample":
 		filtered := c17RangeFuncs[c.Func] && c.Step > c.Range
@@ -359,12 +362,12 @@ func c17RunStep(r *h.Result, sc *fakes.Script, q storage.Querier, c *c17StepCase
 					if st[0] < c.Start || st[0] > c.End || float64(st[1]) != x.Value {
 						continue
 					}
-					if st[0] == x.TimestampMs || (mode == "bucket" && st[0] <= x.TimestampMs && x.TimestampMs < st[0]+c.Step && (x.TimestampMs-c.Start)%c.Step == 0) {
+					if st[0] == x.TimestampMs { // with its own time, also on the per-step aggregation
 						found = true
 					}
 				}
 				if !found {
-					r.Violate("C17/step-sample-not-stored", fmt.Sprintf("[%s] series %v: returned sample %d:%v is not a stored in-window sample of this series (re-timed to its bucket end at most)", mode, ls, x.TimestampMs, x.Value), *c)
+					r.Violate("C17/step-sample-not-stored", fmt.Sprintf("[%s] series %v: returned sample %d:%v is not a stored in-window sample of this series (time and value)", mode, ls, x.TimestampMs, x.Value), *c)
 				}
 			}
 		}
